@@ -1,11 +1,11 @@
 package props
 
 import (
-	"os"
 	"fmt"
 	"go/ast"
 	"go/parser"
 	"go/token"
+	"os"
 	"path/filepath"
 	"regexp"
 	"sort"
